@@ -780,6 +780,32 @@ pub struct Overrides {
     /// names to put in SignedHeaders instead of l.signed (signed over as listed; sorted unless `keep_order`)
     pub signed: Option<Vec<String>>,
     pub algorithm: Option<String>,
+    /// W-defect knobs -----------------------------------------------------------------------------------
+    /// leave these authentication parameters out of the carrier
+    pub omit_credential: bool,
+    pub omit_signature: bool,
+    pub omit_signed_headers: bool,
+    /// no X-Amz-Date / Date header (header carrier) or no X-Amz-Date parameter (query carrier)
+    pub omit_date: bool,
+    /// header carrier: an extra Authorization parameter without '='
+    pub bogus_param: Option<String>,
+    /// strip the carrier altogether (no Authorization header / no X-Amz-Algorithm parameter)
+    pub no_carrier: bool,
+    /// present both carriers: add the other one (well-formed) as well
+    pub both_carriers: bool,
+    /// raw bytes inserted right after the leading '/' of the path, appended to the path, appended to the query
+    pub path_prefix_raw: Vec<u8>,
+    pub path_suffix_raw: Vec<u8>,
+    pub query_suffix_raw: Vec<u8>,
+    /// replace the whole request target (e.g. `*`)
+    pub uri_override: Option<Vec<u8>>,
+    /// body bytes / content-type to put on the wire instead (signature still computed over the logical request)
+    pub body_override: Option<Vec<u8>>,
+    pub content_type_override: Option<Vec<u8>>,
+    /// additional raw header lines appended last (name, value)
+    pub extra_raw_headers: Vec<(Vec<u8>, Vec<u8>)>,
+    /// additional raw query pairs (already spelled) inserted at the front / appended at the back
+    pub raw_query_front: Vec<u8>,
 }
 
 /// Render the logical request to wire bytes, signed by the reference signer.
@@ -799,9 +825,10 @@ pub fn render(l: &Logical, cfg: &Cfg, sp: &mut Speller, ov: &Overrides) -> (Wire
     let alg = ov.algorithm.clone().unwrap_or_else(|| "AWS4-HMAC-SHA256".to_string());
 
     // body bytes
-    let body: Vec<u8> = match &l.form_pairs {
-        Some(fp) => sp.query(fp),
-        None => l.body.clone(),
+    let body: Vec<u8> = match (&ov.body_override, &l.form_pairs) {
+        (Some(b), _) => b.clone(),
+        (None, Some(fp)) => sp.query(fp),
+        (None, None) => l.body.clone(),
     };
     let folded = cfg.fold && l.form_pairs.is_some() && is_form(&l.content_type);
 
@@ -809,6 +836,7 @@ pub fn render(l: &Logical, cfg: &Cfg, sp: &mut Speller, ov: &Overrides) -> (Wire
     let mut hdrs: Vec<(String, Vec<Vec<u8>>)> = vec![("host".into(), vec![l.host.clone()])];
     if l.carrier == Carrier::Header {
         match l.date_mode {
+            _ if ov.omit_date => {}
             0 => hdrs.push(("x-amz-date".into(), vec![ts_text.clone().into_bytes()])),
             1 => hdrs.push(("date".into(), vec![ts_text.clone().into_bytes()])),
             _ => {
@@ -820,7 +848,7 @@ pub fn render(l: &Logical, cfg: &Cfg, sp: &mut Speller, ov: &Overrides) -> (Wire
             hdrs.push(("x-amz-security-token".into(), vec![tok.clone().into_bytes()]));
         }
     }
-    if let Some(ct) = &l.content_type {
+    if let Some(ct) = ov.content_type_override.as_ref().or(l.content_type.as_ref()) {
         hdrs.push(("content-type".into(), vec![ct.clone()]));
     }
     for (n, vs) in &l.extra {
@@ -830,10 +858,18 @@ pub fn render(l: &Logical, cfg: &Cfg, sp: &mut Speller, ov: &Overrides) -> (Wire
     // logical query pairs
     let mut pairs: Pairs = l.url_pairs.clone();
     if l.carrier == Carrier::Query {
-        pairs.push((b"X-Amz-Algorithm".to_vec(), alg.clone().into_bytes()));
-        pairs.push((b"X-Amz-Credential".to_vec(), credential.clone().into_bytes()));
-        pairs.push((b"X-Amz-Date".to_vec(), ts_text.clone().into_bytes()));
-        pairs.push((b"X-Amz-SignedHeaders".to_vec(), signed.join(";").into_bytes()));
+        if !ov.no_carrier {
+            pairs.push((b"X-Amz-Algorithm".to_vec(), alg.clone().into_bytes()));
+        }
+        if !ov.omit_credential {
+            pairs.push((b"X-Amz-Credential".to_vec(), credential.clone().into_bytes()));
+        }
+        if !ov.omit_date {
+            pairs.push((b"X-Amz-Date".to_vec(), ts_text.clone().into_bytes()));
+        }
+        if !ov.omit_signed_headers {
+            pairs.push((b"X-Amz-SignedHeaders".to_vec(), signed.join(";").into_bytes()));
+        }
         if let Some(tok) = &l.token {
             pairs.push((b"X-Amz-Security-Token".to_vec(), tok.clone().into_bytes()));
         }
@@ -872,8 +908,18 @@ pub fn render(l: &Logical, cfg: &Cfg, sp: &mut Speller, ov: &Overrides) -> (Wire
 
     // ---- wire
     let mut uri = sp.path(&l.segs, l.trailing, cfg.s3, l.literal_plus_in_path);
+    if !ov.path_prefix_raw.is_empty() {
+        let mut u = vec![b'/'];
+        u.extend_from_slice(&ov.path_prefix_raw);
+        u.extend_from_slice(&uri[1..]);
+        uri = u;
+    }
+    uri.extend_from_slice(&ov.path_suffix_raw);
     let mut wire_pairs = pairs.clone();
-    if l.carrier == Carrier::Query {
+    if l.carrier == Carrier::Header && ov.both_carriers {
+        wire_pairs.push((b"X-Amz-Algorithm".to_vec(), b"AWS4-HMAC-SHA256".to_vec()));
+    }
+    if l.carrier == Carrier::Query && !ov.omit_signature {
         let pos = if sp.level > 0 {
             sp.r.usize_below(wire_pairs.len() + 1)
         } else {
@@ -881,9 +927,25 @@ pub fn render(l: &Logical, cfg: &Cfg, sp: &mut Speller, ov: &Overrides) -> (Wire
         };
         wire_pairs.insert(pos, (b"X-Amz-Signature".to_vec(), presented.clone().into_bytes()));
     }
-    if !wire_pairs.is_empty() || sp.vary(1, 20) {
+    let mut qs: Vec<u8> = ov.raw_query_front.clone();
+    if !wire_pairs.is_empty() {
+        if !qs.is_empty() {
+            qs.push(b'&');
+        }
+        qs.extend_from_slice(&sp.query(&wire_pairs));
+    }
+    if !ov.query_suffix_raw.is_empty() {
+        if !qs.is_empty() {
+            qs.push(b'&');
+        }
+        qs.extend_from_slice(&ov.query_suffix_raw);
+    }
+    if !qs.is_empty() || sp.vary(1, 20) {
         uri.push(b'?');
-        uri.extend_from_slice(&sp.query(&wire_pairs));
+        uri.extend_from_slice(&qs);
+    }
+    if let Some(u) = &ov.uri_override {
+        uri = u.clone();
     }
     let mut w = Wire::new(&l.method, &uri);
     w.body = body;
@@ -902,17 +964,30 @@ pub fn render(l: &Logical, cfg: &Cfg, sp: &mut Speller, ov: &Overrides) -> (Wire
         }
         groups.push(g);
     }
-    if l.carrier == Carrier::Header {
-        let mut params = vec![
-            format!("Credential={}", credential),
-            format!("SignedHeaders={}", signed.join(";")),
-            format!("Signature={}", presented),
-        ];
+    let emit_auth_header = (l.carrier == Carrier::Header && !ov.no_carrier) || (l.carrier == Carrier::Query && ov.both_carriers);
+    if emit_auth_header {
+        let mut params = Vec::new();
+        if !ov.omit_credential || l.carrier == Carrier::Query {
+            params.push(format!("Credential={}", credential));
+        }
+        if !ov.omit_signed_headers || l.carrier == Carrier::Query {
+            params.push(format!("SignedHeaders={}", signed.join(";")));
+        }
+        if !ov.omit_signature || l.carrier == Carrier::Query {
+            params.push(format!("Signature={}", presented));
+        }
+        if let Some(b) = &ov.bogus_param {
+            params.push(b.clone());
+        }
         if sp.level > 0 {
             sp.r.shuffle(&mut params);
         }
         let mut v = String::new();
-        v.push_str(&alg);
+        v.push_str(if l.carrier == Carrier::Query {
+            "AWS4-HMAC-SHA256"
+        } else {
+            &alg
+        });
         v.push(' ');
         if sp.vary(1, 6) {
             v.push(' ');
@@ -958,6 +1033,9 @@ pub fn render(l: &Logical, cfg: &Cfg, sp: &mut Speller, ov: &Overrides) -> (Wire
         }
     }
     w.headers = lines;
+    for h in &ov.extra_raw_headers {
+        w.headers.push(h.clone());
+    }
     (
         w,
         Facts {
